@@ -117,6 +117,11 @@ class History:
         self.raw('U %d %s' % (len(self.snap_addrs), ' '.join(map(str, self.snap_addrs))))
         self.pay_tok = r.choice([0, 0, PAY_ESDT])
         self.price = self.amount()
+        if r.random() < 0.04:
+            # the price token's identifier is also the identifier of a semi-fungible asset the participants hold
+            # (nonce 5): only the fungible one (nonce 0, which nobody holds) is the payment token
+            self.pay_tok = SFTPAY
+            self.price = r.choice([1, 2, 7, 100])
         self.tptv = self.amount()
         self.K = r.randint(8, 30) if big else r.randint(1, 8)
         if self.stress:
@@ -304,6 +309,8 @@ class History:
         start = r.choice([self.round, self.round + r.randint(0, 400), max(0, self.round - 1), self.claim])
         ch = r.randrange(6)
         if ch == 0:
+            if r.random() < 0.5:
+                start = self.claim + r.choice([5, 30, 100])     # everything at once, but later than the claim round
             a = [start, 10000, r.choice([0, 3]), 0, r.choice([0, 5])]
         elif ch == 1:
             times = r.choice([1, 2, 3, 4, 7])
@@ -364,7 +371,7 @@ class History:
             self.call(OWNER, 'sftSetup')
         if v == 'gt1' and r.random() < 0.85:
             self.call(OWNER, ['setSchedule1'] + r.choice([
-                [self.claim, 10000, 0, 0, 0], [self.claim, 2500, 3, 2500, 10], [self.claim + 5, 0, 4, 2500, 7],
+                [self.claim, 10000, 0, 0, 0], [self.claim + r.choice([3, 30, 120]), 10000, 0, 0, 0], [self.claim, 2500, 3, 2500, 10], [self.claim + 5, 0, 4, 2500, 7],
                 [self.claim, 1000, 9, 1000, 1], [self.claim, 3334, 2, 3333, 20]]))
         if v == 'gt2' and r.random() < 0.5:
             self.schedule2(OWNER)          # a random (possibly odd) schedule first; a good one usually follows
@@ -451,7 +458,7 @@ class History:
             t2 = tok if tok != 0 else PAY_ESDT
             pay = [(t2, 0, max(1, pr * n // 2)), (t2, 0, max(1, pr * n - pr * n // 2))]
         elif ch == 4:
-            pay = [(SFTPAY, 5, min(pr * n, 1000))]
+            pay = [(SFTPAY, 5, pr * n if tok == SFTPAY else min(pr * n, 1000))]
         elif ch == 5:
             n = rem + r.choice([1, 2, 2 ** 32 - 1, 2 ** 32])
             pay = [(tok, 0, pr * min(n, 300))]
